@@ -110,6 +110,50 @@ CHECKS = {
         note=TRUSTED + " vsched assumptions as for C03.",
         design_ref="§5 C20",
     ),
+    "C08": dict(
+        category="exploration",
+        technique="bounded-exhaustive enumeration of slice programs, each compiled seven ways (driver, repeated, re-invoked, real worker.Compile from transported bytes, two separately started processes) and compared on a canonical graph dump + structural invariants",
+        text=("19k (quick) / 110k (thorough) programs: all operator chains to depth 3 over 16 operators with shard counts 1-3, shared sub-slices consumed with different partition counts, custom partitioners, combiners with and without "
+              "machine combiners, nested shuffles, pragma placements, Cache/CachePartial with every subset of shards pre-cached, and Result arguments (pipelined, shuffled, nested, repeated). For each program the real compile runs on the driver, "
+              "again, on a fresh re-invocation, through the real (*worker).Compile from the bytes shipped to workers, and in two separately started child processes; the canonical graph (task names modulo the process-global invocation index, "
+              "shard/partition counts, combiner keys, groups, per-dependency head/partition/expand/key) must be identical in all, every task name the driver uses must resolve on the worker, and the invariants of the statement must hold: acyclic, "
+              "unique names, one root per result shard, one task per shard per stage, no pipelining across shuffle/Materialize/Result, consumer shard p <- partition p of every producer shard, producer NumPartition == consumer shard count."),
+        note=TRUSTED + " The canonical dump reads exported Task fields only. Workers in other processes share the binary (same Func registry).",
+        design_ref="§5 C08",
+    ),
+    "C09": dict(
+        category="model_checking",
+        technique="explicit-state breadth-first search over operation histories of the real combiningFrame and combiner (replay on fresh objects, de-duplication on the full slot dump) against a map model",
+        text=("Keys are chosen at start by the real seeded hash so that they collide modulo 8, 16 and 32, sit on each other's probe sequences and wrap around the table. Phase A drives the real combiningFrame (initial capacities 1-16, "
+              "scratch 1-3): Combine of 1-3 row frames with values +-1 and Compact, BFS to depth 5 (quick) / 7 (thorough) over three alphabets (210/24/13 operations; reaching growth 8->16->32, mid-batch resizes, displaced keys after rehash), "
+              "state = capacity, length, threshold and hits/key/value of every slot; oracle after every history: slots == map model, Compact returns each key once. Phase B drives the real spilling combiner with spill thresholds 1,2,3,5, "
+              "several chunk/merge-buffer/spill-batch sizes, int, string and 2-column keys; state additionally includes every spilled run; every history is read back through Reader() and WriteTo: strictly ascending keys, one row per key, "
+              "exact folds; spill directories must be gone afterwards."),
+        note=TRUSTED + " Accessors expose makeCombiningFrame/newCombiner and dump slots; no combiner logic is re-implemented. Random large skewed sequences are another family and not done.",
+        design_ref="§5 C09",
+    ),
+    "C16": dict(
+        category="exploration",
+        technique="bounded-exhaustive enumeration of argument lists through the real invocation codec (in-process, real worker.Compile, child process), of unencodable arguments on a cluster with RPC counting, and of all location-list pairs for the diff",
+        text=("(a) 5,262 argument lists over 15 registered Funcs covering int, string, float64, []int, map, struct, pointer, interface{}, user interface, bigslice.Slice and *exec.Result parameters (zero values, typed/untyped nil, interfaces holding "
+              "each registered concrete type, nested Results) go through the real execInvocation encode/decode, an in-process (*worker).Compile and a separately started process: decoded arguments must equal the originals (Results map to the worker-local "
+              "Result) and the compiled graph must equal the driver's; lists the codec rejects must be rejected as errors. (b) Unencodable arguments (func, chan, unregistered concrete type in an interface, typed nil pointer, ...) on 1- and 2-machine "
+              "vsys clusters, one driver process per run: Run must return an error promptly with ZERO Worker.Run RPCs and no retry loop, and the driver must survive. (c) bigslice.FuncLocationsDiff on ALL ordered pairs of location lists of length <=4 "
+              "(<=5 thorough) over a 3-letter alphabet: empty iff equal, and the edit script transforms one list into the other."),
+        note=TRUSTED + " Part (b) is not judged on the local executor (the statement speaks about workers). A worker with a different gob registry is outside the checked system.",
+        design_ref="§5 C16",
+    ),
+    "C17": dict(
+        category="model_checking",
+        technique="exhaustive enumeration of upstream read scripts x destination-size sequences for 23 readers against a plain-Go reference, with sentinel-filled destination parents and snapshot comparison of delivered frames",
+        text=("23 readers (operator readers const, readerfunc, map, prefixed, filter, flatmap, head, fold, writerfunc, scan, cogroup, reduce; sortio merge reader; sliceio MultiReader, FrameReader, decoding reader, spiller readers, ClosingReader, "
+              "ReaderWithCloseFunc; exec taskBufferReader and multiReader; Scanner.Scan/Scanv) are driven with EVERY chunking of 5 rows into reads of 1-3 rows in both EOF forms (rows together with EOF, or a separate (0,EOF)), zero-row non-final reads "
+              "where the statement allows them, and every destination-length sequence of length 1-2 (quick) / 1-3 (thorough) over {1,2,3,5}, at vector sizes {3,128} (+{1,2,5} thorough). Per run: 0<=n<=len(dst); the destination is a view into a "
+              "sentinel-filled parent so writes to dst[n:] and outside the view are detected; delivered rows equal the reference; frames delivered earlier are unchanged at the end; reads after EOF return (0,EOF); Scanner yields each row once, ends "
+              "with a nil Err, and refuses wrong arity/type with an error."),
+        note=TRUSTED + " One genuine deviation is recorded in known_findings.jsonl (ReaderFunc zeroes the whole destination frame by design). Error-returning inputs are not part of the statement and not driven.",
+        design_ref="§5 C17",
+    ),
 }
 
 NOT_YET = "check designed in DESIGN.md §5 but not yet built/validated in this tree; not claimed"
